@@ -220,8 +220,10 @@ Proof.
       { apply Hnu. apply in_app_or in Hm0 as [H|H]; [right; apply Hin0; exact H|].
         left. apply (Interleave_in_l _ _ _ _ Hil H). }
       destruct (m_type m0); try discriminate. apply Hu. reflexivity.
-  - injection E as <- <-. exists msgs0, ch. cbn.
-    split; [exact Hil|]. split; [exact Hin0|]. rewrite Hms. reflexivity.
+  - injection E as <- <-. exists msgs0, ch.
+    split; [|split; [exact Hin0|rewrite Hms; reflexivity]].
+    repeat match goal with |- context [match ?x with [] => _ | _ :: _ => _ end] => destruct x end;
+      cbn; exact Hil.
 Qed.
 
 (* messages that fit together travel in one datagram *)
